@@ -378,8 +378,11 @@ def check_above(run: Run, pkg: Package) -> None:
             binds = _module_level_candidates(pkg, mi, f.rsplit(".", 1)[-1])
             if f in LIB_SIG or any(b[0] == "def" or (b[0] == "import" and b[1] in LIB_SIG) for b in binds):
                 cand.append(ev)
+    check_int_products(run, it)
     if len(cand) != 1:
-        raise AnalysisError(f"SphHarm_above: expected exactly one per-m delegated call, found {len(cand)}")
+        run.ob("R-ANGLE", fq, "delegate", None, "degrees above 10 are delegated to the library's spherical harmonics (one call per order or one vectorised call)",
+               f"{len(cand)} delegated calls found: the values are computed in place, which this rule does not decide", loc=fi.loc())
+        return
     ev = cand[0]
     call = ev.data["call"]
     fname = call[1]
@@ -553,12 +556,28 @@ def azimuth_verdict(t, PH_):
     allok = True
     for arm, conds in arms:
         try:
-            e = S.to_sympy(arm, lambda y: PH if y == PH_ else None)
+            atom_ = lambda y: PH if y == PH_ else None
+            if arm[0] == "bin" and arm[1] == "%":
+                e = sp.Mod(S.to_sympy(arm[2], atom_), S.to_sympy(arm[3], atom_), evaluate=False)
+            elif arm[0] == "call" and arm[1] in ("numpy.mod", "numpy.remainder", "numpy.fmod", "math.fmod") and len(arm[2]) == 2:
+                e = sp.Mod(S.to_sympy(arm[2][0], atom_), S.to_sympy(arm[2][1], atom_), evaluate=False)
+            else:
+                e = S.to_sympy(arm, atom_)
         except Exception:  # noqa
             return None, ""
         if e.free_symbols - {PH}:
             return None, ""
         if e.has(sp.Mod) or e.has(sp.floor):
+            # phi reduced modulo P: the harmonics are 2 pi-periodic in the azimuth and in nothing shorter
+            mods = list(e.atoms(sp.Mod))
+            if len(mods) == 1 and e == mods[0] and sp.simplify(mods[0].args[0] - PH).is_number and not mods[0].args[1].free_symbols:
+                per = sp.nsimplify(mods[0].args[1] / (2 * sp.pi))
+                if per.is_integer is True and per != 0:
+                    continue            # phi mod 2 pi k
+                val = sp.Rational(-1, 2)
+                got = sp.N(e.subs(PH, val), 8)
+                return False, (f"the azimuth is reduced modulo {sp.sstr(mods[0].args[1])}, not a multiple of 2 pi: azimuth {val} is handed to the library as {got}, "
+                               f"so order m picks up exp(i m ({sp.N(got - val, 6)})) - a sign flip of every odd m for a modulus of pi")
             allok = False
             continue
         d = sp.simplify(e - PH)
@@ -611,3 +630,47 @@ def check_above_vectorised(run, it, ev, call, variants, L, TH_, PH_):
     direct = it.returns and strip_alloc(ret) in (strip_alloc(call), ("call", "numpy.asarray", (strip_alloc(call),), ()), ("call", "numpy.array", (strip_alloc(call),), ()))
     run.ob("R-ANGLE", fq, "result-order", True if direct else None, "the library's array over the orders is returned as is", show(ret)[:80])
     run.minimum("R-ANGLE", 5)
+
+
+def check_int_products(run: Run, it) -> None:
+    """R-OVERFLOW: a product over an integer range whose length grows with the degree / order (factorials, double factorials
+    written as np.prod(np.arange(...))) is computed in int64 and wraps silently once it exceeds 2**63 - 1."""
+    fq = short(it.fi.qual)
+    for ev in it.events:
+        for v in ev.data.values():
+            if not isinstance(v, tuple):
+                continue
+            for x in walk(v):
+                if not (x[0] == "call" and x[1] in ("numpy.prod", ".prod", "numpy.cumprod", ".cumprod", "numpy.multiply.reduce") and x[2]):
+                    continue
+                if any(k in ("dtype",) for k, _ in x[3]):
+                    continue
+                rng = x[2][0]
+                if not (rng[0] == "call" and rng[1] in ("numpy.arange", "builtins.range") and not any(k == "dtype" for k, _ in rng[3])):
+                    continue
+                if any(is_const(a) and isinstance(a[1], float) for a in rng[2]):
+                    continue
+                free = [y for a in rng[2] for y in walk(a) if y[0] in ("loopvar", "sym", "cvar")]
+                if not free:
+                    continue
+                # smallest value of the (single) free quantity at which the integer product leaves int64
+                import itertools
+                from .grlib import eval_int, Undecidable
+                f0 = free[0]
+                hit = None
+                try:
+                    for val in range(1, 200):
+                        args = [eval_int(a, {f0: val}) for a in rng[2]]
+                        p_ = 1
+                        for k_ in range(*args):
+                            p_ *= k_
+                        if abs(p_) > 2 ** 63 - 1:
+                            hit = (val, p_)
+                            break
+                except (Undecidable, Exception):  # noqa
+                    hit = None
+                key = f"int-product:{show(x)[:50]}"
+                run.ob("R-OVERFLOW", fq, key, False if hit else None, "integer products that grow with the degree / order stay within the integer type",
+                       show(x)[:90], witness=None if not hit else
+                       f"{show(f0)} = {hit[0]}: the exact product is {hit[1]} > 2**63 - 1; numpy computes it in int64 and wraps without a warning "
+                       f"(every degree l >= {hit[0]} is in the property's domain)", loc=loc_of(it, ev), sound=True)
